@@ -244,8 +244,12 @@ class Interp:
                     before[mode] = self.outcome(lambda: self.build(mode).solve())
             self.earlier[self.epoch] = before
             self.epoch += 1
+            if not self.check_intact(what + " (reference solves before the edit)"):
+                return False
             s_ = movable[op[1] % len(movable)]
             lst = d["transition_list"][s_]
+            if not lst:
+                return True
             k_ = op[2] % len(lst)
             lst[k_] = (lst[k_][0], absorbing[op[3] % len(absorbing)])
             self.pristine = copy.deepcopy({f: d[f] for f in FIELDS})
